@@ -7,8 +7,52 @@ from ..fold import try_fold
 from ..util import stmts_with_env, calls_with_env, assignments_to, single_def, kwarg, param_names, is_log_call, log_type
 from .common import method, unconditional_in
 from .c09 import constituents_rule
+from . import shared
 
 DM = 'vermouth/processors/do_mapping.py'
+
+
+def weight_rules(ck):
+    """The weights recorded for a particle are the mapping's own (shared with C09)."""
+    mod = ck.index.mod(DM)
+    abm = mod.func('apply_block_mapping')
+    amm = mod.func('apply_mod_mapping')
+    ck.analysed(mod, abm)
+    ck.analysed(mod, amm)
+    # ------------------------------------------------------------ every atom of a placement enters the table, with the placement's weights
+    stores = [s for s in ast.walk(abm) if isinstance(s, ast.Assign) and isinstance(s.targets[0], ast.Subscript) and base_name(s.targets[0]) in ('mol_to_out', 'out_to_mol')]
+    m2b = 'mol_to_block'
+    floop = [n for n in abm.body if isinstance(n, ast.For) and u(n.iter) == m2b]
+    ok = len(floop) == 1
+    if ok:
+        fl = floop[0]
+        mv = u(fl.target)
+        inner = [n for n in fl.body if isinstance(n, ast.For)]
+        ok = len(inner) == 1 and u(inner[0].iter) == '{}[{}].items()'.format(m2b, mv) and len(fl.body) == 1
+        if ok:
+            bv, wv = [u(e) for e in inner[0].target.elts]
+            body = inner[0].body
+            od = [s for s in body if isinstance(s, ast.Assign) and u(s.targets[0]) == 'out_idx']
+            s1 = [s for s in body if isinstance(s, ast.Assign) and u(s.targets[0]) == 'mol_to_out[{}][out_idx]'.format(mv) and u(s.value) == wv]
+            s2 = [s for s in body if isinstance(s, ast.Assign) and u(s.targets[0]) == 'out_to_mol[out_idx][{}]'.format(mv) and u(s.value) == wv]
+            ok = len(od) == 1 and u(od[0].value) == 'block_to_out[{}]'.format(bv) and len(s1) == 1 and len(s2) == 1 and \
+                all(unconditional_in(abm, body, s) for s in (od[0], s1[0], s2[0]))
+    ck.ob('PROV-weights', mod.loc(abm), ok, 'for every atom of the placement and every particle it maps to, both tables receive the placement\'s own weight under the merged particle key, unconditionally',
+          key='PROV-weights|block')
+    # mod mapping weights
+    ml = [n for n in amm.body if isinstance(n, ast.For) and u(n.iter) == 'mol_to_mod']
+    ok = len(ml) == 1
+    if ok:
+        inner = [n for n in ml[0].body if isinstance(n, ast.For)]
+        ok = len(inner) == 1 and u(inner[0].iter) == 'mol_to_mod[{}].items()'.format(u(ml[0].target))
+        if ok:
+            body = inner[0].body
+            bv, wv = [u(e) for e in inner[0].target.elts]
+            s1 = [s for s in body if isinstance(s, ast.Assign) and u(s.targets[0]) == 'mol_to_out[{}][out_idx]'.format(u(ml[0].target)) and u(s.value) == wv]
+            s2 = [s for s in body if isinstance(s, ast.Assign) and u(s.targets[0]) == 'out_to_mol[out_idx][{}]'.format(u(ml[0].target)) and u(s.value) == wv]
+            od = [s for s in body if isinstance(s, ast.Assign) and u(s.targets[0]) == 'out_idx' and u(s.value) == 'mod_to_out[{}]'.format(bv)]
+            ok = len(s1) == 1 and len(s2) == 1 and len(od) == 1 and all(unconditional_in(amm, body, s) for s in (s1[0], s2[0], od[0]))
+    ck.ob('PROV-weights', mod.loc(amm), ok, 'modification mappings record their weights in both tables the same way', key='PROV-weights|modification')
 
 
 def run(ck):
@@ -92,26 +136,9 @@ def run(ck):
     ck.ob('PROV-table-read', mod.loc(fn), len(edefs) == 1 and u(edefs[0]) == '{}.edges_between(match1.keys(), match2.keys())'.format(molp),
           '`edges` holds input bonds between atoms of two applied placements (both ends are in the table)', key='PROV-table-read|edges-def')
 
-    # ------------------------------------------------------------ every atom of a placement enters the table, with the placement's weights
-    stores = [s for s in ast.walk(abm) if isinstance(s, ast.Assign) and isinstance(s.targets[0], ast.Subscript) and base_name(s.targets[0]) in ('mol_to_out', 'out_to_mol')]
+    weight_rules(ck)
     m2b = 'mol_to_block'
     floop = [n for n in abm.body if isinstance(n, ast.For) and u(n.iter) == m2b]
-    ok = len(floop) == 1
-    if ok:
-        fl = floop[0]
-        mv = u(fl.target)
-        inner = [n for n in fl.body if isinstance(n, ast.For)]
-        ok = len(inner) == 1 and u(inner[0].iter) == '{}[{}].items()'.format(m2b, mv) and len(fl.body) == 1
-        if ok:
-            bv, wv = [u(e) for e in inner[0].target.elts]
-            body = inner[0].body
-            od = [s for s in body if isinstance(s, ast.Assign) and u(s.targets[0]) == 'out_idx']
-            s1 = [s for s in body if isinstance(s, ast.Assign) and u(s.targets[0]) == 'mol_to_out[{}][out_idx]'.format(mv) and u(s.value) == wv]
-            s2 = [s for s in body if isinstance(s, ast.Assign) and u(s.targets[0]) == 'out_to_mol[out_idx][{}]'.format(mv) and u(s.value) == wv]
-            ok = len(od) == 1 and u(od[0].value) == 'block_to_out[{}]'.format(bv) and len(s1) == 1 and len(s2) == 1 and \
-                all(unconditional_in(abm, body, s) for s in (od[0], s1[0], s2[0]))
-    ck.ob('PROV-weights', mod.loc(abm), ok, 'for every atom of the placement and every particle it maps to, both tables receive the placement\'s own weight under the merged particle key, unconditionally',
-          key='PROV-weights|block')
     merges = calls_with_env(abm, lambda c: call_attr(c) == 'merge_molecule')
     ok = len(merges) == 1 and not [l for l in mod.ancestors(merges[0][0]) if isinstance(l, (ast.For, ast.While))] and u(merges[0][0].args[0]) == 'blocks_to' \
         and u(merges[0][0].func.value) == 'graph_out'
@@ -172,6 +199,14 @@ def run(ck):
     ok = set(srt) >= {'block_matches', 'mod_matches'} and all(try_fold(kwarg(v, 'reverse')) is True for v in srt.values()) and \
         u(kwarg(srt['block_matches'], 'key')) == 'block_sort_key' and u(single_def(fn, 'block_sort_key')) == 'lambda x: min(x[0].keys())'
     ck.ob('MPT-one-copy', mod.loc(fn), ok, 'placements are taken in order of their lowest atom key (sorted descending, popped from the end)', key='MPT-one-copy|order')
+    msk = single_def(fn, 'mod_sort_key')
+    ok = isinstance(msk, ast.Lambda) and isinstance(msk.body, ast.IfExp)
+    if ok:
+        x = msk.args.args[0].arg
+        ok = u(msk.body.body) == 'max({}[0].keys())'.format(x) and u(msk.body.orelse) == 'min({}[0].keys())'.format(x) and \
+            'node_should_exist({}[1], idx)'.format(x) in u(msk.body.test) and u(msk.body.test).startswith('any(') and u(kwarg(srt.get('mod_matches'), 'key')) == 'mod_sort_key'
+    ck.ob('MPT-one-copy', mod.loc(fn), ok, 'a modification placement that touches existing particles is scheduled by its highest atom key (after the blocks it modifies), '
+          'one that only adds atoms by its lowest', key='MPT-one-copy|mod-order')
     bm = [s for s in ast.walk(fn) if isinstance(s, ast.Expr) and call_attr(s.value) == 'extend' and 'block_matches' in u(s)]
     ok = len(bm) == 1 and 'mapping.map(' in u(bm[0])
     if ok:
@@ -236,18 +271,23 @@ def run(ck):
         ck.ob('BULK-per-attribute', mod.loc(br), per and not bulk_bad and nst >= 1,
               '{} branch: inside the per-attribute loop only the attribute being tested is written ({} store(s){})'.format(
                   label, nst, '; whole-dict writes: ' + '; '.join(bulk_bad) if bulk_bad else ''), key='BULK-per-attribute|' + label)
-    # mod mapping weights
-    ml = [n for n in amm.body if isinstance(n, ast.For) and u(n.iter) == 'mol_to_mod']
-    ok = len(ml) == 1
-    if ok:
-        inner = [n for n in ml[0].body if isinstance(n, ast.For)]
-        ok = len(inner) == 1 and u(inner[0].iter) == 'mol_to_mod[{}].items()'.format(u(ml[0].target))
-        if ok:
-            body = inner[0].body
-            bv, wv = [u(e) for e in inner[0].target.elts]
-            s1 = [s for s in body if isinstance(s, ast.Assign) and u(s.targets[0]) == 'mol_to_out[{}][out_idx]'.format(u(ml[0].target)) and u(s.value) == wv]
-            s2 = [s for s in body if isinstance(s, ast.Assign) and u(s.targets[0]) == 'out_to_mol[out_idx][{}]'.format(u(ml[0].target)) and u(s.value) == wv]
-            od = [s for s in body if isinstance(s, ast.Assign) and u(s.targets[0]) == 'out_idx' and u(s.value) == 'mod_to_out[{}]'.format(bv)]
-            ok = len(s1) == 1 and len(s2) == 1 and len(od) == 1 and all(unconditional_in(amm, body, s) for s in (s1[0], s2[0], od[0]))
-    ck.ob('PROV-weights', mod.loc(amm), ok, 'modification mappings record their weights in both tables the same way', key='PROV-weights|modification')
+    # ------------------------------------------------------------ block instantiation = merge (shared with C12), induced matching
+    from .c12 import merge_rules
+    merge_rules(ck)
+    shared.no_monomorphism(ck, ['vermouth/map_parser.py', 'vermouth/processors/do_mapping.py', 'vermouth/graph_utils.py'])
+    mp = ck.index.mod('vermouth/map_parser.py')
+    gmap = mp.func('Mapping._graph_map')
+    mapf = mp.func('Mapping.map')
+    ck.analysed(mp, gmap)
+    ck.analysed(mp, mapf)
+    its = [c for c in walk_local(gmap) if isinstance(c, ast.Call) and call_attr(c) == 'subgraph_isomorphisms_iter']
+    gmc = [c for c in walk_local(gmap) if isinstance(c, ast.Call) and (call_name(c) or '').endswith('GraphMatcher')]
+    ok = len(its) == 1 and len(gmc) == 1 and u(kwarg(gmc[0], 'node_match')) == 'node_match' and u(kwarg(gmc[0], 'edge_match')) == 'edge_match' \
+        and [u(a) for a in gmc[0].args] == ['graph', 'self.block_from']
+    ck.ob('WMC-induced', mp.loc(gmap), ok, 'a mapping is placed wherever its source block is an induced subgraph of the molecule under the node and edge predicates handed in '
+          '(`{}`)'.format(u(gmc[0])[:100] if gmc else '?'), key='WMC-induced|graph_map')
+    mcalls = [c for c in walk_local(fn) if isinstance(c, ast.Call) and call_attr(c) == 'map' and 'mapping' in u(c.func.value)]
+    ok = len(mcalls) == 1 and u(kwarg(mcalls[0], 'node_match')) == '_old_atomname_match' and u(kwarg(mcalls[0], 'edge_match')) == 'edge_matcher' and u(mcalls[0].args[0]) == molp
+    ck.ob('WMC-induced', mod.loc(fn), ok, 'do_mapping matches every block mapping on the whole molecule with the atom-name and same-residue predicates', key='WMC-induced|do_mapping-call')
+    shared.truthy_zero(ck, [DM, 'vermouth/map_parser.py'])
     ck.assume('that the matcher finds every placement, the residue renumbering arithmetic and modification mapping covers are not decided')
